@@ -312,6 +312,12 @@ VARIANTS = [
     V("twin: implicit min_count condition spelled with a local flag over the request only", ("C12", "C05"), "", "core.py",
       '        if nax < by_.ndim or (fill_value is not None and (provided_expected or nby > 1)):',
       '        absent_possible = provided_expected or nby >= 2\n        if nax < by_.ndim or (fill_value is not None and absent_possible):', expect="silent"),
+    V("variance pivot looked up in the first batch slice only", ("C08", "C20"), "R-VARSHIFT[batch]", "aggregate_npg.py",
+      '    first = _get_aggregate(engine).aggregate(group_idx, array, func="nanfirst", axis=axis)',
+      '    pivots = array[(0,) * (array.ndim - 1)] if array.size else array\n    first = _get_aggregate(engine).aggregate(group_idx, pivots, func="nanfirst", axis=-1)', must_mention="pivot"),
+    V("twin: variance pivot through a renamed aggregate handle", ("C08", "C20"), "", "aggregate_npg.py",
+      '    first = _get_aggregate(engine).aggregate(group_idx, array, func="nanfirst", axis=axis)',
+      '    agg_ = _get_aggregate(engine).aggregate\n    first = agg_(group_idx, array, func="nanfirst", axis=axis)', expect="silent"),
     V("dtype promotion memoised with an untyped key", ("C14",), "R-MEMO", "xrdtypes.py", '        dtype = np.result_type(dtype, fill_value)\n    return dtype\n',
       '        dtype = _promote_for_fill_value(dtype, fill_value)\n    return dtype\n\n\n@functools.lru_cache\ndef _promote_for_fill_value(dtype: np.dtype, fill_value) -> np.dtype:\n    return np.result_type(dtype, fill_value)\n', must_mention="typed"),
     V("twin: dtype promotion memoised with typed=True", ("C14",), "", "xrdtypes.py", '        dtype = np.result_type(dtype, fill_value)\n    return dtype\n',
